@@ -384,7 +384,8 @@ def resolve_global(modname, name):
 
 
 # re-implementations of a standard module that the external contracts (E-URL) treat as the standard one
-MODULE_ALIASES = {'future.backports.urllib.parse': 'urllib.parse', 'future.moves.urllib.parse': 'urllib.parse'}
+MODULE_ALIASES = {'future.backports.urllib.parse': 'urllib.parse', 'future.moves.urllib.parse': 'urllib.parse',
+                  'xml.etree.cElementTree': 'xml.etree.ElementTree'}
 
 
 def classify(v):
